@@ -59,17 +59,29 @@ pub fn run(ctx: &Ctx) -> Report {
 	let refs = Refs::new(&ctx.root);
 	let mut total = Report::new();
 	total.rule = "explicit-state BFS: state = path text inside a fixed context (prefix, suffix); initial states = PATH(2) over the core segment alphabet valid in the context; transitions = push/pop/clear/symbolic_push/symbolic_append/normalize of the real PathMut (fresh handle, one handle replaying the history, stand-alone PathBuf); a violating transition is reported and not expanded; paths longer than 40 bytes are cut. non-trivial = distinct (context, state, op) transition executed".into();
-	let depth = ctx.pick(2usize, 3usize);
-	let level = ctx.pick(0u8, 1u8);
-	let mut jobs: Vec<(Family, Vec<u8>, Vec<u8>)> = Vec::new();
-	for f in Family::BOTH {
-		for (p, s) in contexts(level) {
-			jobs.push((f, p, s));
+	let depth_env: Option<usize> = std::env::var("VERIF_C10_DEPTH").ok().and_then(|s| s.parse().ok());
+	// (depth, alphabet level) passes: thorough adds a deeper pass over the core alphabet
+	let passes: Vec<(usize, u8)> = match depth_env {
+		Some(d) => vec![(d, 0)],
+		None => {
+			if ctx.quick() {
+				vec![(2, 0)]
+			} else {
+				vec![(3, 1), (4, 0)]
+			}
+		}
+	};
+	let mut jobs: Vec<(Family, Vec<u8>, Vec<u8>, usize, u8)> = Vec::new();
+	for (depth, level) in &passes {
+		for f in Family::BOTH {
+			for (p, s) in contexts(*level) {
+				jobs.push((f, p, s, *depth, *level));
+			}
 		}
 	}
 	let r = run_shards(ctx, jobs.len(), |ji| {
-		let (f, prefix, suffix) = &jobs[ji];
-		let f = *f;
+		let (f, prefix, suffix, depth, level) = &jobs[ji];
+		let (f, depth, level) = (*f, *depth, *level);
 		let mut r = Report::new();
 		let dref = refs.dfa(f, Kind::RiRef);
 		let ops = op_alphabet(f, level);
@@ -82,6 +94,18 @@ pub fn run(ctx: &Ctx) -> Report {
 			t.extend_from_slice(suffix);
 			if ref_valid(&dref, f, Kind::RiRef, &t) && syntax::split(&t).path == p && seen.insert(p.clone()) {
 				frontier.push((p.clone(), p, vec![]));
+			}
+		}
+		// long paths (beyond the 16-segment / 512-byte inline buffers): judged for one step,
+		// their successors fall under the length cut
+		for abs in [false, true] {
+			for p in domains::long_paths(abs) {
+				let mut t = prefix.clone();
+				t.extend_from_slice(&p);
+				t.extend_from_slice(suffix);
+				if ref_valid(&dref, f, Kind::RiRef, &t) && syntax::split(&t).path == p && seen.insert(p.clone()) {
+					frontier.push((p.clone(), p, vec![]));
+				}
 			}
 		}
 		r.count("initial_states", frontier.len() as u64);
@@ -125,7 +149,7 @@ pub fn run(ctx: &Ctx) -> Report {
 		r
 	});
 	total.merge(r);
-	total.info.insert("bounds".into(), json!({"depth": depth, "alphabet_level": level, "max_path_bytes": MAX_PATH_LEN, "contexts": jobs.len()}));
+	total.info.insert("bounds".into(), json!({"passes(depth,alphabet_level)": passes, "max_path_bytes": MAX_PATH_LEN, "context_jobs": jobs.len()}));
 	total
 }
 
